@@ -41,6 +41,8 @@ class SquidsHooks(GslHooks):
 
     # ---- memory
     def on_new(self, it, node, count, elem_type):
+        if count is None and not node.get('array'):
+            count = 1  # single-object new
         if not isinstance(count, int):
             raise Unsupported('symbolic allocation size at %s' % it.loc(node))
         name = 'heap#%d' % len(self.heap)
